@@ -73,4 +73,4 @@ Check E2E.E2E_glue_leaves :
   /\ (forall s, Ser.tokens_of (ser_str s) = [ser_str s]).
 
 Check E2E.E2E_glue_truncates :
-  read_expr (Ser.tokens_of (ser_expr (ETest (TPerm PAny 4096)))) = Some (ETest (TPerm PAny 0)).
+  read_expr (Ser.tokens_of (ser_expr (ETest (TPerm PAny 4294967296)))) = Some (ETest (TPerm PAny 0)).
